@@ -84,6 +84,13 @@ def gen_cfg(seed: int, faulty: typing.Optional[bool] = None) -> dict:
         apps.append(app)
     nreq = rng.choice([1, 2, 3, 4, 6, 8, 8, 12, 16, 24, 32, 64])
     burst = rng.random() < 0.5
+    storm = rng.random() < 0.12  # swarm: one A/B application hammered by a burst through a wide, busy thread pool
+    if storm:
+        project = rng.choice(PROJECTS)
+        variants = rng.sample([(r, g) for r in RELEASES for g in range(1, GENERATIONS + 1)], rng.choice([2, 2, 3]))
+        apps = [{'name': 'app0', 'kind': 'abtest', 'project': project,
+                 'variants': [{'release': r, 'generation': g, 'target': rng.choice([None, None, 0.5, 1])} for r, g in variants]}]
+        napps, nreq, burst = 1, rng.choice([24, 32, 48, 64]), True
     requests = []
     for rid in range(1, nreq + 1):
         nrows = rng.randint(1, 3)
@@ -110,8 +117,9 @@ def gen_cfg(seed: int, faulty: typing.Optional[bool] = None) -> dict:
                 faults[kind] = p
     return {
         'seed': seed, 'faulty': faulty, 'apps': apps, 'requests': requests, 'commits': commits,
-        'processes': rng.randint(1, 4),
-        'kernel': {'policy': rng.choice(['random', 'random', 'pct']), 'preempt_p': rng.choice([0.02, 0.1, 0.3, 0.6]),
+        'processes': rng.randint(3, 4) if storm else rng.randint(1, 4),
+        'kernel': {'policy': 'random' if storm else rng.choice(['random', 'random', 'pct']),
+                   'preempt_p': rng.choice([0.1, 0.3]) if storm else rng.choice([0.02, 0.1, 0.3, 0.6]),
                    'pct_depth': rng.randint(1, 5), 'pct_horizon': rng.choice([300, 1500, 6000]), 'faults': faults,
                    'max_steps': 400000},
     }
